@@ -1,6 +1,7 @@
 P = dict(
     bin="egv_c17", trace="Trace_C17", level="model_checking",
     mc=[dict(module="MC_C17", quick_cfg="MC_C17.cfg", thorough_cfg="MC_C17_thorough.cfg")],
+    drift_checked=True,
     required_events=["line"],
     level_text="TLC steps the transcribed Bresenham machine (one action per next()) for every delta of a square from two start "
                "points and the transcribed ParallelsIterator/ThickPoints machine for every delta and stroke width of a smaller "
